@@ -47,6 +47,12 @@ Kernel == /\ Ev.e = "Kernel"
           /\ viol' = viol
                \cup { <<Ev.t, "NoUninitRead", Ev.i, Ev.rd[k].w>> : k \in {k \in 1..Len(Ev.rd) : ~SegDefined(Ev.rd[k])} }
                \cup { <<Ev.t, "ReadsIntended", Ev.i, Ev.rd[k].w>> : k \in {k \in 1..Len(Ev.rd) : ~SegOK(Ev.rd[k])} }
+               \* wdup = bytes that two different OFM elements of this operation share (strides smaller than a row / brick)
+               \cup (IF Ev.wdup > 0 THEN {<<Ev.t, "WritesDistinctBytes", Ev.i, "ofm">>} ELSE {})
+               \* ninj = feature maps whose programmed strides let two elements of the accessed box share a byte (a row pitch
+               \* smaller than a row): such a map reads / writes another element's bytes although every tag agrees, because
+               \* the logical offsets of the tags are derived from the same strides
+               \cup { <<Ev.t, "LayoutInjective", Ev.i, Ev.ninj[k]>> : k \in 1..Len(Ev.ninj) }
           /\ mem' = Tagging(Ev.wr) @@ mem
 Dma == /\ Ev.e = "Dma"
        /\ LET undefined == \E i \in 1..Len(Ev.src) : mem[Ev.src[i]] = Uninit
